@@ -27,7 +27,8 @@ def ascii85decode(data: bytes) -> bytes:
     return a85decode(data)
 
 
-bws_re = re.compile(rb"\s")
+# the six PDF white-space characters (plus VT, which was always skipped here)
+bws_re = re.compile(rb"[\x00\t\n\x0b\x0c\r ]")
 
 
 def asciihexdecode(data: bytes) -> bytes:
